@@ -19,10 +19,19 @@ Inductive oresp := OSync | OUpd (n : noti) (dup : N).
 
 Definition dump := list (string * path * noti).
 
+(** [ob_burst]: 0 = an ordinary step (the subscriber was quiescent before and
+    after it).  1 / 2 = member / last member of a burst: the steps of a burst were
+    executed concurrently (the Subscribe call, if it is in the burst, in its
+    own goroutine; the cache operations by one writer goroutine per target, in
+    script order per target) without waiting for quiescence in between; only
+    the last member carries the responses recorded during the whole burst and
+    the dump taken after it.  A Subscribe step that opens a burst carries the
+    dump taken before the burst started. *)
 Record oobs := OB {
   ob_group : list oresp;
   ob_cres : cres;
-  ob_dump : option dump }.
+  ob_dump : option dump;
+  ob_burst : N }.
 
 Record case := CS {
   c_targets : list string;
@@ -125,27 +134,71 @@ Definition acl_table (cs : case) : list (string * string * bool) :=
 Definition acfg (cs : case) : aclcfg :=
   match c_acl cs with Some _ => ACLUser (c_user cs) | None => NoACL end.
 
+Definition in_resps (r : resp) (l : list resp) : bool := existsb (resp_eqb r) l.
+
+(** acceptance of a burst of cache operations on a streaming subscriber: every
+    response observed is one the sequential execution of the same operations
+    produces (as a set: a leaf offered again before it was sent is sent with
+    its newest value, possibly twice), and every response of the sequential
+    execution whose notification is still the stored one at the end of the
+    burst was observed (the final value of every written leaf is delivered) *)
+Definition burst_accepts (total : list resp) (observed : list resp) (d1 : option dump) : bool :=
+  forallb (fun r => in_resps r total) observed
+  && match d1 with
+     | None => true
+     | Some d =>
+         forallb (fun r => match r with
+                           | RSync => in_resps r observed
+                           | RUpd n =>
+                               if is_pure_delete n then true
+                               else if existsb (fun e => noti_eqb n (snd e)) d
+                                    then in_resps r observed else true
+                           end) total
+     end.
+
+(** [acc]: [None] outside a burst, [Some (responses so far, the burst contains
+    the Subscribe step)] inside *)
 Fixpoint model_from (allow : string -> string -> bool) (a : aclcfg) (rq : option request)
-  (i : nat) (st : rstate) (ops : list step) (obs : list oobs) : list (nat * N) * rstate :=
+  (i : nat) (st : rstate) (acc : option (list resp * bool)) (ops : list step) (obs : list oobs)
+  : list (nat * N) * rstate :=
   match ops, obs with
-  | [], [] => ([], st)
+  | [], [] => (match acc with None => [] | Some _ => [(i, 1%N)] end, st)
   | s :: ops', ob :: obs' =>
       let '(st', g, cr) := run_step allow a rq st s in
-      let v1 := if group_eqb (expand (ob_group ob)) g then [] else [(i, 1%N)] in
+      let is_sub := match s with SSub => true | _ => false end in
       let v2 := if cres_eqb (ob_cres ob) cr then [] else [(i, 1%N)] in
-      let v3 := match ob_dump ob with
-                | Some d => if mset_eqb dentry_eqb d (dump_cache (rs_cache st')) then [] else [(i, 1%N)]
-                | None => []
+      let vd := match ob_dump ob, is_sub && negb (N.eqb (ob_burst ob) 0) with
+                | Some d, false =>
+                    if mset_eqb dentry_eqb d (dump_cache (rs_cache st')) then [] else [(i, 1%N)]
+                | _, _ => []      (* the dump of a burst-opening Subscribe is checked by K_P only *)
                 end in
-      let rest := model_from allow a rq (S i) st' ops' obs' in
-      (v1 ++ v2 ++ v3 ++ fst rest, snd rest)
+      let '(v1, acc') :=
+        match ob_burst ob with
+        | 0%N =>
+            (match acc with
+             | None => if group_eqb (expand (ob_group ob)) g then [] else [(i, 1%N)]
+             | Some _ => [(i, 1%N)]
+             end, None)
+        | 1%N =>
+            let prev := match acc with Some p => p | None => ([], false) end in
+            (match ob_group ob with [] => [] | _ => [(i, 1%N)] end,
+             Some (fst prev ++ g, snd prev || is_sub))
+        | _ =>
+            let prev := match acc with Some p => p | None => ([], false) end in
+            ((if snd prev || is_sub then []      (* a walk overlapped by writers: K_P (weak) decides *)
+              else if burst_accepts (fst prev ++ g) (expand (ob_group ob)) (ob_dump ob) then []
+                   else [(i, 1%N)]),
+             None)
+        end in
+      let rest := model_from allow a rq (S i) st' acc' ops' obs' in
+      (v1 ++ v2 ++ vd ++ fst rest, snd rest)
   | _, _ => ([(i, 1%N)], st)            (* not one observation per step *)
   end.
 
 Definition model_check (a : aclcfg) (cs : case) (obs : list oobs) (stt : status) (fin : option dump)
   : list (nat * N) :=
   let r := model_from (allow_of (acl_table cs)) a (c_req cs) 0
-                      (RS (empty_cache (c_targets cs)) PBefore) (c_ops cs) obs in
+                      (RS (empty_cache (c_targets cs)) PBefore) None (c_ops cs) obs in
   let n := List.length (c_ops cs) in
   fst r
   ++ (if status_eqb stt (final_status (rs_phase (snd r))) then [] else [(n, 1%N)])
@@ -226,6 +279,41 @@ Definition kp_snapshot (rq : request) (pf : gpath) (d : dump) (g : list oresp) :
   let extra := filter (fun n => negb (existsb (noti_eqb n) expected)) (upds_of g) in
   kf_or 2 missing ++ kf_or 3 extra ++ (if one_sync_last g then [] else [4%N]).
 
+(** ** a snapshot overlapped by writers (the weak clause of the property)
+
+    [d0]: the implementation's dump before the burst, [writes]: the
+    notifications the writers stored during it (single-update notifications:
+    stored as they are), [d1]: the dump after it.  Timestamps of the writers
+    increase, so a notification that is in [d0] and in [d1] was stored
+    throughout the call. *)
+Definition kp_weak (rq : request) (pf : gpath) (d0 : dump) (writes : list noti) (d1 : dump)
+  (g : list oresp) : list N :=
+  let held := map snd d0 ++ writes in
+  let bad := filter (fun n => r_updates_only rq
+                              || negb (wants rq pf (g_target (n_prefix n)) n
+                                       && existsb (noti_eqb n) held)) (upds_of g) in
+  let stable := if r_updates_only rq then []
+                else map snd (filter (fun e => wants rq pf (fst (fst e)) (snd e)
+                                               && existsb (dentry_eqb e) d1) d0) in
+  let missing := filter (fun n => negb (existsb (noti_eqb n) (before_sync g))) stable in
+  kf_or 6 bad ++ kf_or 7 missing ++ (if one_sync_last g then [] else [4%N]).
+
+(** the members of the burst that follow its first step: the notifications
+    written, the last observation, and what follows the burst *)
+Fixpoint burst_rest (ops : list step) (obs : list oobs) (writes : list noti) (k : nat)
+  : option (list noti * oobs * list step * list oobs * nat) :=
+  match ops, obs with
+  | s :: ops', ob :: obs' =>
+      let w := match s with
+               | SCache (CUpdate n) => match n_upds n with [_] => [n] | _ => [] end
+               | _ => []
+               end in
+      if N.eqb (ob_burst ob) 2 then Some (writes ++ w, ob, ops', obs', S k)
+      else if N.eqb (ob_burst ob) 1 then burst_rest ops' obs' (writes ++ w) (S k)
+      else None
+  | _, _ => None
+  end.
+
 Definition live_after (live : list string) (s : step) : list string :=
   match s with
   | SCache (CRemove t _) => filter (fun x => negb (String.eqb x t)) live
@@ -252,39 +340,58 @@ Definition nothing_sent (g : list oresp) : list N :=
   match g with [] => [] | _ => [3%N] end.
 
 (** [act]: [None] before the Subscribe step or when the property does not
-    apply; [Some (pf, polling)] afterwards *)
+    apply; [Some (pf, polling)] afterwards.  [skip]: members of a burst already
+    judged together with its opening Subscribe step. *)
 Fixpoint kp_from (rq : request) (i : nat) (live : list string) (act : option (gpath * bool))
-  (seen_sub : bool) (ops : list step) (obs : list oobs) : list (nat * N) * option (gpath * bool) :=
+  (seen_sub : bool) (skip : nat) (ops : list step) (obs : list oobs)
+  : list (nat * N) * option (gpath * bool) :=
   match ops, obs with
   | s :: ops', ob :: obs' =>
+      let seen := match s with SSub => true | _ => seen_sub end in
+      match skip with
+      | S k => kp_from rq (S i) (live_after live s) act seen k ops' obs'
+      | O =>
       let here :=
         match s with
         | SSub =>
-            if seen_sub then (tagged i (match act with Some _ => nothing_sent (ob_group ob) | None => [] end), act)
+            if seen_sub then (tagged i (match act with Some _ => nothing_sent (ob_group ob) | None => [] end), act, O)
             else
               match c05_applicable live rq, ob_dump ob with
-              | Some pf, Some d => (tagged i (kp_snapshot rq pf d (ob_group ob)), Some (pf, Z.eqb (r_mode rq) 2))
-              | _, _ => ([], None)
+              | Some pf, Some d =>
+                  if N.eqb (ob_burst ob) 0 then
+                    (tagged i (kp_snapshot rq pf d (ob_group ob)), Some (pf, Z.eqb (r_mode rq) 2), O)
+                  else
+                    match burst_rest ops' obs' [] 0 with
+                    | Some (writes, last, _, _, k) =>
+                        (tagged (i + k)
+                                (match ob_dump last with
+                                 | Some d1 => kp_weak rq pf d writes d1 (ob_group last)
+                                 | None => [4%N]
+                                 end),
+                         Some (pf, Z.eqb (r_mode rq) 2), k)
+                    | None => ([], None, O)        (* malformed burst: the correspondence reports it *)
+                    end
+              | _, _ => ([], None, O)
               end
         | SPoll =>
             match act, ob_dump ob with
-            | Some (pf, true), Some d => (tagged i (kp_snapshot rq pf d (ob_group ob)), act)
-            | Some (_, false), _ => (tagged i (nothing_sent (ob_group ob)), act)
-            | _, _ => ([], act)
+            | Some (pf, true), Some d => (tagged i (kp_snapshot rq pf d (ob_group ob)), act, O)
+            | Some (_, false), _ => (tagged i (nothing_sent (ob_group ob)), act, O)
+            | _, _ => ([], act, O)
             end
         | SCache _ =>
-            (tagged i (match act with Some _ => nothing_sent (ob_group ob) | None => [] end), act)
+            (tagged i (match act with Some _ => nothing_sent (ob_group ob) | None => [] end), act, O)
         end in
-      let seen := match s with SSub => true | _ => seen_sub end in
-      let rest := kp_from rq (S i) (live_after live s) (snd here) seen ops' obs' in
-      (fst here ++ fst rest, snd rest)
+      let rest := kp_from rq (S i) (live_after live s) (snd (fst here)) seen (snd here) ops' obs' in
+      (fst (fst here) ++ fst rest, snd rest)
+      end
   | _, _ => ([], act)
   end.
 
 Definition kp_c05 (cs : case) : list (nat * N) :=
   match c_req cs, c_acl cs with
   | Some rq, None =>
-      let r := kp_from rq 0 (c_targets cs) None false (c_ops cs) (c_obs cs) in
+      let r := kp_from rq 0 (c_targets cs) None false O (c_ops cs) (c_obs cs) in
       fst r ++ match snd r with
                | Some _ => if status_eqb (c_status cs) SOK then [] else [(List.length (c_ops cs), 5%N)]
                | None => []
